@@ -2,6 +2,7 @@ import Cppcms.Common
 import Cppcms.C19.Model
 import Cppcms.C19.Spec
 import Cppcms.C19.JsonC11
+import Cppcms.C06.Model
 /-! Line-protocol driver for C19 (same protocol as `harness/c19.cpp`); `J` lines evaluate the
 property predicates of `Spec.lean` on outputs produced by the implementation. -/
 open Cppcms Cppcms.C19
@@ -235,6 +236,17 @@ def step (_ : Unit) (line : String) : Unit × String :=
         if op == "save" || op == "ssave" then
           match parseValAll ty rest with
           | some v => (match saveE ty v with | some bs => toHex bs | none => "throw")
+          | none => "bad-op"
+        else if op == "zsv" then
+          -- session store_data, save(), next request load(), fetch_data: C06's `save_data` refuses values of
+          -- `Gen.dataLimit` (2 MiB) bytes and more; otherwise the bytes come back (C06 `loadData_saveData`)
+          match parseValAll ty rest with
+          | some v =>
+            if !savable ty v then "throw"
+            else if (save ty v).length ≥ C06.Gen.dataLimit then "toolong"
+            else (match loadArchive ty (save ty v) with
+              | .ok w _ => join (["ok"] ++ dumpVal ty w)
+              | .err e _ => errStr e)
           | none => "bad-op"
         else if op == "rt" || op == "srt" || op == "crt" || op == "zrt" then   -- crt/zrt: cache / session store_data + fetch_data
           match parseValAll ty rest with
